@@ -102,6 +102,7 @@ class Judge:
                  max_abs_c=(res.get("seam") or {}).get("max_abs_c", 0.0),
                  hist_max_abs_c=(res.get("seam") or {}).get("hist_max_abs_c", 0.0),
                  aa_faults=bool(((res.get("faults") or {}).get("aa"))),
+                 ls_exhausted=bool((res.get("seam") or {}).get("ls_exhausted")),
                  )
         if extra:
             f.update(extra)
